@@ -7,12 +7,12 @@ Theorem C14_locality : forall A (p : prog A) known x bs v r,
 Proof. exact runo_extend. Qed.
 
 Theorem C14_strict_prefix_fails : forall t v bs pre suf known,
-  nobits t = true -> wf_ty t = true -> wf t v = true -> enc_spec t v = EOk bs ->
+  wf_ty t = true -> wf t v = true -> enc_spec t v = EOk bs ->
   bs = pre ++ suf -> suf <> [] -> forall v' r, runo (dec t) known pre <> OOk v' r.
 Proof. exact strict_prefix_fails. Qed.
 
 Theorem C14_concat_decodes_in_order : forall known (items : list (ty * val * list byte)) rest,
-  Forall (fun x => nobits (item_ty x) = true /\ wf_ty (item_ty x) = true /\
+  Forall (fun x => wf_ty (item_ty x) = true /\
                    wf (item_ty x) (item_val x) = true /\ enc_spec (item_ty x) (item_val x) = EOk (item_bytes x)) items ->
   dec_all_of (map item_ty items) known (concat (map item_bytes items) ++ rest)
   = Some (map (fun x => canon (item_ty x) (item_val x)) items, rest).
